@@ -186,17 +186,30 @@ pub fn matrix(expression: Expression) -> Expression {
                             let mut valid = true;
                             for expression in &expressions {
                                 match expression {
-                                    Expression::BooleanExpression(left, _, _) => match **left {
-                                        Expression::Cast(ref field, _)
-                                        | Expression::Field(ref field) => {
-                                            if lookup.contains_key(field) {
+                                    // NOTE: This must accept exactly what the field count above
+                                    // accepted, anything else cannot be turned into a cell
+                                    Expression::BooleanExpression(left, _, right) => {
+                                        match (&**left, &**right) {
+                                            (
+                                                Expression::Cast(field, _)
+                                                | Expression::Field(field),
+                                                Expression::Boolean(_)
+                                                | Expression::Float(_)
+                                                | Expression::Integer(_)
+                                                | Expression::Null,
+                                            ) => {
+                                                if lookup.contains_key(field) {
+                                                    valid = false;
+                                                    break;
+                                                }
+                                                lookup.insert(field.clone(), expression.clone());
+                                            }
+                                            (_, _) => {
                                                 valid = false;
                                                 break;
                                             }
-                                            lookup.insert(field.clone(), expression.clone());
                                         }
-                                        _ => {}
-                                    },
+                                    }
                                     Expression::Nested(field, _)
                                     | Expression::Search(_, field, _) => {
                                         if lookup.contains_key(field) {
